@@ -55,7 +55,7 @@ CLAIMED["C10"] = {
 
 CLAIMED["C17"] = {
     "technique": "Lean 4 heap-style proofs on an explicit store of buffers, views and object ids (read-after-write, frame, alias visibility, fresh copies); op-history correspondence observing identity and memory sharing on the real objects",
-    "text": "On the pure store layer: C17_iop (the same object reads the values of x op y after x op= y), C17_iop_frame (Arrays on other buffers and object identities unchanged), write_alias and C17_view_sees_write (every other object viewing the same buffer - same view, slice, strided or overlapping view - reads the written value where the views meet and the old value elsewhere), alloc_fresh + C17_copy_independent (copies are independent in both directions) are proved for every store, view and operand. Tie: histories of in-place ops / copies / deep copies / slices / group insertions on shared objects run on the real classes and on the machine; `is` and np.shares_memory are observed after each step.",
+    "text": "On the pure store layer: C17_iop (the same object reads the values of x op y after x op= y), C17_iop_frame (Arrays on other buffers and object identities unchanged), write_alias and C17_view_sees_write (every other object viewing the same buffer - same view, slice, strided or overlapping view - reads the written value where the views meet and the old value elsewhere), alloc_fresh + C17_copy_independent (copies are independent in both directions) are proved for every store, view and operand. Tie: histories of in-place ops / copies / deep copies / slices / group insertions on shared objects run on the real classes and on the machine; `is` and np.shares_memory are observed after each step. Some handles are read-only views over shared data (flags.writeable = False); their copies must be independent and writable.",
     "note": "trusted: Lean kernel + standard axioms; numpy's view/copy semantics and `out=` casting are modelled; the history-level statement is by correspondence (induction over op lists not yet proved); sub-views with dimension-changing in-place ops are outside the claim (as the property states)",
     "design_ref": "5 C17",
 }
@@ -89,14 +89,14 @@ CLAIMED["C14"] = {
 
 CLAIMED["C12"] = {
     "technique": "Lean 4 structural induction on the inductive octree (truncation keeps well-formedness; the leaves of the truncated tree conserve volume; levels <= L) + level-cap lemma; correspondence of level-limited loads with model, Spec (truncated-tree leaves), read trace, volume and probe-lattice coverage",
-    "text": "C12_truncated_volume (for every well-formed tree and every L the leaves of the truncated tree fill the root cell exactly), truncate_WF / truncate_fits / truncate_levels, C12_lmax_le and C01_leaf_rule are proved. Tie: outputs with levelmax 2..5 and predicates l<=k, l<k, a<l<b, l==k, l!=k, l>=k alone or with value/position predicates; the real loader's rows equal the model's and, as a multiset, the Spec's leaves of the truncated tree with coarse values; meta lmax and the read trace (only levels up to L are read) equal the model's; volumes add up and every probe point lies in exactly one cell when all levels up to L are accepted.",
+    "text": "C12_truncated_volume (for every well-formed tree and every L the leaves of the truncated tree fill the root cell exactly), truncate_WF / truncate_fits / truncate_levels, C12_flat_rule_is_truncation (filtering the stored cells of any tree, refined or not, with the loader's per-cell rule for a cap L - level <= L and (no son or level = L) - yields exactly the leaves of the tree truncated at L, in file order, each with its own coarse value) with its corollary C12_flat_rule_volume, C12_lmax_le and C01_leaf_rule are proved. Tie: outputs with levelmax 2..5 and predicates l<=k, l<k, a<l<b, l==k, l!=k, l>=k alone or with value/position predicates; the real loader's rows equal the model's and, as a multiset, the Spec's leaves of the truncated tree with coarse values; meta lmax and the read trace (only levels up to L are read) equal the model's; volumes add up and every probe point lies in exactly one cell when all levels up to L are accepted.",
     "note": "trusted: as C01; the inductive octree and the flat oct list of the generator are related by construction of the generator (volume and coverage are also checked numerically on each case)",
     "design_ref": "5 C12",
 }
 
 CLAIMED["C04"] = {
     "technique": "Lean 4 proof of the Hilbert-transducer prefix property for any state diagram with digits < 8, kernel-checked obligations on the state diagram regenerated from hilbert.py (equals the reference, per-state permutation), interval-pick lemma for the bound-key loops; correspondence of selective loads with the filter of the full load on Hilbert-consistent synthetic outputs",
-    "text": "key_prefix / key_prefix_current (key(x,y,z,B) / 8^(B-b) = key of the enclosing cube, for all coordinates and depths), table_is_reference, generated_digit_perm, generated_next_lt (decide +kernel on the extracted table), C04_interval_pick (the owner of any key inside a search interval lies between cpu_min and cpu_max for non-decreasing bound keys), C04_cube_not_finer, and the composition C04_preselect_sound / C04_box_sound (3-D: every cell whose centre lies in the bounding box handed to _get_cpu_list is owned by a cpu of the returned list — key_in_cube_interval, cubeLevel_spec / dmax_le_cube (the box is not wider than a search cube), trunc_two / trunc_centre / axis_in_cubes (the eight search cubes cover the box), mem_collect) are proved. Tie: 3-D outputs owned according to the reference curve for equal / random / empty-domain / cube-edge bound keys and 1..64 cpus, boxes from 1.2 finest cells (smaller than the leaf they hit) to the whole domain on 1-3 axes, value predicates, explicit cpu_list, non-hilbert ordering; rows, the number of files opened, and _hilbert3d itself (exhaustive to depth 3, random to 19 bits) are compared; the cube-finer-than-oct witness is replayed on every run.",
+    "text": "key_prefix / key_prefix_current (key(x,y,z,B) / 8^(B-b) = key of the enclosing cube, for all coordinates and depths), table_is_reference, generated_digit_perm, generated_next_lt (decide +kernel on the extracted table), key_injective_current (two cells of the 2^b grid with the same key are the same cell, for every depth b: run_injective over the regenerated table, ofDigits_injective, eq_of_bits), C04_interval_pick (the owner of any key inside a search interval lies between cpu_min and cpu_max for non-decreasing bound keys), C04_cube_not_finer, and the composition C04_preselect_sound / C04_box_sound (3-D: every cell whose centre lies in the bounding box handed to _get_cpu_list is owned by a cpu of the returned list — key_in_cube_interval, cubeLevel_spec / dmax_le_cube (the box is not wider than a search cube), trunc_two / trunc_centre / axis_in_cubes (the eight search cubes cover the box), mem_collect) are proved. Tie: 3-D outputs owned according to the reference curve for equal / random / empty-domain / cube-edge bound keys and 1..64 cpus, boxes from 1.2 finest cells (smaller than the leaf they hit) to the whole domain on 1-3 axes, value predicates, explicit cpu_list, non-hilbert ordering; rows, the number of files opened, and _hilbert3d itself (exhaustive to depth 3, random to 19 bits) are compared; the cube-finer-than-oct witness is replayed on every run.",
     "note": "trusted: Lean kernel + standard axioms; reference state diagram = table of the pinned commit (no RAMSES source offline); ownership rule of RAMSES as formalised; 1-D/2-D outputs and bound keys >= 2^53 are not covered; that the bounding box computed by hilbert_cpu_list from the sampled cell centres contains every qualifying cell is by correspondence",
     "design_ref": "5 C04",
 }
@@ -129,7 +129,7 @@ CLAIMED["C03"] = {
 }
 CLAIMED["C11"] = {
     "technique": "Lean 4 proofs: slab pre-selection soundness, voxel/column theorems (each depth sample is the value of the cell containing it or missing), reductions incl. nan-variants and NaN propagation, unit scaling of sum/nansum by the depth step, round-half-even depth count is nearest to the pixel size; correspondence on thick maps over reductions x dz x resolutions",
-    "text": "slab_sound / nearPlane_thick_sound, pixHits_of_contains_thick, mem_select_thick, C11_voxel / C11_column / C11_sched, reduce_nan_propagates / reduce_nansum_all_missing / reduce_nan_all_missing / reduce_nan_eq / reduce_sum_some, C11_units / C11_units_const (a constant column integrates to v*depth for every nz), roundHalfEven_nearest / roundHalfEven_tie_even / depth_count_nearest are proved; slab_unsound_witness proves the negation for the slab test as it was coded (repaired). Tie: as C03 plus dz/s in {1/8..8, domain} x eight reductions x resolution int / dict with and without z, depth/pixel ratios on the ties of round().",
+    "text": "slab_sound / nearPlane_thick_sound, pixHits_of_contains_thick, mem_select_thick, C11_voxel / C11_column / C11_sched, reduce_nan_propagates / reduce_nansum_all_missing / reduce_nan_all_missing / reduce_nan_eq / reduce_sum_some, C11_units / C11_units_const (a constant column integrates to v*depth for every nz), C11_rows_use_own_operation (in every result of the map model each binned row is reduced by its own layer's operation, else the call's, and only rows reduced by sum / nansum carry the depth step in value and unit), roundHalfEven_nearest / roundHalfEven_tie_even / depth_count_nearest are proved; slab_unsound_witness proves the negation for the slab test as it was coded (repaired). Tie: as C03 plus dz/s in {1/8..8, domain} x eight reductions (call-level, and per layer on about a third of the cases) x resolution int / dict with and without z, depth/pixel ratios on the ties of round().",
     "note": "partial: as C03 (3-D data with dx given in the theorems; scheduler sampled); float rounding excluded by the exact lane and bounded by 1e-9 with near ties skipped in the tolerant lane",
     "design_ref": "5 C11",
 }
